@@ -92,6 +92,8 @@ type PgWorldConfig struct {
 	// MySQL: the deployment is AcraServer in MySQL mode in front of the simulated MySQL server.
 	MySQL          bool
 	MyDeprecateEOF bool
+	// StrictParser: Acra's SQL parser in strict mode (a statement it cannot parse is an error, not a pass-through)
+	StrictParser bool
 }
 
 type session struct {
@@ -190,7 +192,11 @@ func NewPgWorld(w *kernel.World, rng *kernel.RNG, cfg PgWorldConfig) (*PgWorld, 
 	if cfg.PoisonCalls != nil {
 		pw.Poison.AddCallback(cfg.PoisonCalls)
 	}
-	setting := base.NewProxySetting(sqlparser.New(sqlparser.ModeDefault), schema, h.KS, nil, censor, pw.Poison)
+	parserMode := sqlparser.ModeDefault
+	if cfg.StrictParser {
+		parserMode = sqlparser.ModeStrict
+	}
+	setting := base.NewProxySetting(sqlparser.New(parserMode), schema, h.KS, nil, censor, pw.Poison)
 	if cfg.MySQL {
 		pw.Factory, err = acramysql.NewProxyFactory(setting, h.KS, tokenizer)
 		return pw, err
@@ -429,7 +435,13 @@ func (pw *PgWorld) applyStreamFaults(s *stream, conns []*SimConn) {
 		switch f.Kind {
 		case "corrupt-payload", "tiny-length":
 			if s.name == "client->proxy-c" && pw.delivered[s.name] == 1 && !pw.mysql {
-				continue // the startup message has no type byte
+				// the startup message has no type byte: its own length field is set to 4..8 (the protocol
+				// version stays) and the message is cut accordingly
+				if f.Kind == "tiny-length" && s.shortenStartup(4+int(f.Arg)%5) {
+					w.Res.Fired["startup-length"]++
+					w.Event(0, "FAULT startup-length "+s.name, fmt.Sprint(4+int(f.Arg)%5))
+				}
+				continue
 			}
 			tiny := -1
 			if f.Kind == "tiny-length" {
